@@ -260,6 +260,7 @@ func init() {
 		c.Rule = "for every (client kind, fault kind in {ctx cancel, reset, clean EOF, Close by another goroutine, child exit}, handler blocked or not, 1..2 pending calls, and the handshake itself pending against a server that stalls before the stream headers or withholds the initialize answer): the fault is a thread whose single step is placed at every point of the exchange by DFS (sleep-set reduced, preemption bounded); plus truncation of the answer at every byte offset; oracle: every call returns promptly with an error or the complete correct result, never (nil,nil)/partial/panic, untouched calls succeed, and after Close no library goroutine, open response body or pending entry remains"
 		c.Assume = append(c.Assume, "the stdio child is modelled by pipes plus the process-watcher effect; exec, signals, pids and OS file descriptors are not exercised", "connection release is judged on memnet response bodies", "virtual time: 'promptly' = returned at quiescence after the fault while the handler is still blocked")
 		c.Enumerate("c08/truncate")
+		c.Enumerate("c08/get-refused")
 		for _, cfg := range c08Configs() {
 			pb := c.Pick(2, 3)
 			if cfg.N == 2 || (cfg.Mode == "ls" && (cfg.Fault == "reset" || cfg.Fault == "eof")) {
@@ -484,7 +485,63 @@ func c08Handshake(prefix []int, cfg c08HsCfg) explore.Outcome {
 	return finishOutcome(res, obs, viol, true)
 }
 
+// c08GetRefused: the server refuses the Streamable client's automatic listening stream with a
+// status and a body; calls still work; after Close nothing of that exchange is left open.
+func c08GetRefused(tier string, i int) CaseResult {
+	statuses := []int{405, 404, 400, 500, 503, 401}
+	mode := []string{"sj", "ss"}[i%2]
+	st := statuses[i/2]
+	cr := CaseResult{Desc: fmt.Sprintf("client=%s GET answered %d with a body", mode, st), Nontrivial: true}
+	var viol []explore.Violation
+	obs := &hx.Log{}
+	k := func(s string) string { return fmt.Sprintf("%s:get-refused-%d:%s", s, st, mode) }
+	res := vsched.Run(vsched.Config{}, func() {
+		ss := newScriptedServer(mode)
+		ss.getStatus = st
+		cl, err := ss.connect(mcp.WithClientGetSSEEnabled(true))
+		if err != nil {
+			viol = append(viol, V(k("handshake-fails"), "a refused listening stream must not fail the handshake: %v", err))
+			return
+		}
+		vsched.Quiesce()
+		done := &hx.Flag{}
+		var cerr error
+		vsched.Go("caller", func() {
+			rq := &mcp.CallToolRequest{}
+			rq.Params.Name = "t"
+			_, cerr = cl.CallTool(context.Background(), rq)
+			done.Set()
+		})
+		vsched.Quiesce()
+		if !done.Get() || cerr != nil {
+			viol = append(viol, V(k("call-fails"), "a call after the refused listening stream: done=%v err=%v", done.Get(), cerr))
+		}
+		closed := &hx.Flag{}
+		vsched.Go("close", func() { cl.Close(); closed.Set() })
+		vsched.Quiesce()
+		if !closed.Get() {
+			viol = append(viol, V(k("close-hangs"), "Close did not return; blocked: %v", vsched.LiveThreads()))
+		}
+		if leaked := libraryThreads(vsched.LiveThreads()); len(leaked) > 0 {
+			viol = append(viol, V(k("goroutine-leak"), "after Close these library goroutines are still alive: %v", leaked))
+		}
+		for _, x := range ss.fab.OpenBodies() {
+			viol = append(viol, V(k("body-leak"), "the response body of %s %s (status %d) was never closed by the client", x.Method, x.Path, x.Status))
+			break
+		}
+		obs.Add("gets=%d", strings.Count(strings.Join(ss.httpLog, " "), "GET"))
+		ss.stop()
+	})
+	o := finishOutcome(res, obs, viol, true)
+	cr.ObsKey = cr.Desc + o.ObsKey
+	cr.Violations = o.Violations
+	cr.Broken = o.Broken
+	return cr
+}
+
 func init() {
+	RegisterEnum(&Enum{Name: "c08/get-refused", Doc: "Streamable client whose automatic listening stream is refused (405, 404, 400, 500, 503, 401, each with a body): calls work, and after Close no goroutine or response body of the refused exchange is left",
+		Count: func(string) int { return 12 }, Eval: c08GetRefused})
 	for _, cfg := range c08HsConfigs() {
 		cfg := cfg
 		RegisterScenario(&Scenario{Name: cfg.name(), Run: func(p []int, m []vsched.ChoicePoint) explore.Outcome { return c08Handshake(p, cfg) },
